@@ -51,7 +51,9 @@
   * `break n` / `continue n`: "n must be ≥ 1.  If n is greater than the number of enclosing loops,
     all enclosing loops are exited / the last enclosing loop is resumed.  The return value is 0
     unless n is not greater than or equal to 1."  Outside a loop they do nothing and return 0.
-    Loops are counted per shell function and per subshell (bash ≥ 4.4).
+    Loops are counted per shell function and per `( )` subshell or pipeline stage (bash ≥ 4.4), but a
+    command substitution inside a loop still counts the loops around it: `break`/`continue` in
+    `$( )` end the substitution (validated against bash 5.2).
   * `return`: "causes a shell function to stop executing and return the value n; if n is not
     supplied, the return value is the exit status of the last command executed in the function";
     outside a function (and a sourced script) it fails (status 2 in bash 5.2).
@@ -277,7 +279,8 @@ def sem : Nat → Ctx → Task → Env → Res
     | .assignSub x p =>
       -- command substitution: a subshell (`inherit_errexit`: `-e` is inherited); the assignment
       -- returns its status
-      match sub { k with depth := 0 } p (subEnv e []) with
+      -- (a command substitution keeps the loop count: `break`/`continue` in it end the substitution)
+      match sub k p (subEnv e []) with
       | none => none
       | some (_, e1) => some (.norm, { e with status := e1.status, vars := (x, stripNl e1.out) :: e.vars })
     | .exit none => some (.exit, if k.inTrap || k.inExit then { e with status := k.trapSt } else e)
